@@ -754,6 +754,9 @@ func genSmallValue(t *rapid.T) interface{} {
 	case 0:
 		return rapid.SampledFrom([]string{"v", "new", ""}).Draw(t, "valStr")
 	case 1:
+		if rapid.IntRange(0, 3).Draw(t, "valZero") == 0 {
+			return rapid.SampledFrom([]float64{0, 1e21, 0.5, 1e-7, 100}).Draw(t, "valSpecialNum")
+		}
 		return float64(rapid.IntRange(-2, 99).Draw(t, "valNum"))
 	case 2:
 		return map[string]interface{}{"y": "1"}
